@@ -233,7 +233,7 @@ def bulk_worker(arg):
 def run(ctx):
     status = coqbuild.prove("C16", THEOREMS)
     rng = ctx.rng
-    n = 400 if ctx.quick else 5000
+    n = 400 if ctx.quick else 15000
     cases = [gen_emit_case(rng) for _ in range(n)]
     batches = [cases[i:i + 40] for i in range(0, len(cases), 40)]
     agg = {"n": 0, "with_collision": 0}
